@@ -37,6 +37,21 @@ def _closure_maker(cls, leaf):
 scenario(11)(_closure_maker(ClsB, 5))
 
 
+def _rebinding_maker():
+  width = 4
+  holder = [ClsA]
+
+  @auto_config.auto_config
+  def rebound_closure(a1=1):
+    return holder[0](s1=width, s2=a1)
+  width = 16            # the enclosing scope re-binds the free variable after decoration
+  holder[0] = ClsB      # and mutates a captured object
+  return rebound_closure
+
+
+scenario()(_rebinding_maker())
+
+
 @scenario()
 @auto_config.auto_config
 def tuple_unpacking():
